@@ -1001,10 +1001,27 @@ class XandikosBackend(webdav.Backend):
             segment.lower() == GIT_PATH for segment in relpath.split(posixpath.sep)
         )
 
+    def _inside_bare_repository(self, p):
+        # Likewise, the directories that make up a bare repository (refs/,
+        # objects/, ...) are not collections, and none can be created there.
+        root = os.path.normpath(self.path)
+        p = os.path.dirname(os.path.normpath(p))
+        while len(p) > len(root):
+            if (
+                os.path.isfile(os.path.join(p, "HEAD"))
+                and os.path.isdir(os.path.join(p, "objects"))
+                and os.path.isdir(os.path.join(p, "refs"))
+            ):
+                return True
+            p = os.path.dirname(p)
+        return False
+
     def create_collection(self, relpath):
         if self._in_control_dir(posixpath.normpath(relpath)):
             raise FileNotFoundError(relpath)
         p = self._map_to_file_path(relpath)
+        if self._inside_bare_repository(p):
+            raise FileNotFoundError(relpath)
         return Collection(self, relpath, TreeGitStore.create(p))
 
     def create_principal(self, relpath, create_defaults=False):
@@ -1029,6 +1046,8 @@ class XandikosBackend(webdav.Backend):
         if p is None:
             return None
         if os.path.isdir(p):
+            if self._inside_bare_repository(p):
+                return None
             try:
                 store = open_store_from_path(
                     p,
